@@ -11,7 +11,7 @@ Not decided: ordering of late connection-closed notifications.
 import ast
 
 from ..model import self_attr, unparse, walk_body_shallow
-from .util import (bootstrap_names, call_name, call_recv, calls_in, need, node_assign_value, norm, real_suspension, registrations, where)
+from .util import (deferred_origins, bootstrap_names, call_name, call_recv, calls_in, need, node_assign_value, norm, real_suspension, registrations, where)
 
 TECHNIQUE = "poison-first dominance, aggregate construction def-use, call-graph dominance of the closing test, " \
             "check-after-yield (G-YIELD)"
@@ -90,10 +90,17 @@ def run(ctx):
         "close() does not return the aggregate of the broker-client closes", where(close, close.node), "close Deferred fires before the connections are gone")
     cc = ctx.cfg(cbc)
     fcc = ctx.facts(cbc)
-    dl = [n for n in cc.nodes if node_assign_value(n, "close_dlist") is not None and isinstance(node_assign_value(n, "close_dlist"), ast.Call)
-          and call_name(node_assign_value(n, "close_dlist")) == "DeferredList"]
+    dl = []
+    for n in cc.nodes:
+        v = node_assign_value(n, "close_dlist")
+        if v is not None:
+            og = deferred_origins(cc, n.id, v) or []
+            if len(og) == 1 and isinstance(og[0], ast.Call) and call_name(og[0]) == "DeferredList":
+                dl.append((n, og[0]))
     need(len(dl) == 1, "aggregate construction not found")
-    lst = norm(node_assign_value(dl[0], "close_dlist").args[0])
+    dl_call = dl[0][1]
+    dl = [dl[0][0]]
+    lst = norm(dl_call.args[0])
     loops = [n for n in cc.nodes if n.kind == "for" and norm(n.stmt.iter) == cbc.params[1]]
     apps = [n for n in cc.nodes if any(call_name(c) == "append" and call_recv(c) == lst for c in n.calls())]
     ok = len(loops) == 1 and bool(apps)
@@ -102,9 +109,9 @@ def run(ctx):
         inl = [n for n in apps if n.id in body]
         ok = len(inl) == 1 and loops[0].id not in cc.reach([t for t, lab in cc.succ[loops[0].id] if lab == ("iter", True)], avoid=[inl[0].id])
         if ok:
-            av = norm([c for c in inl[0].calls() if call_name(c) == "append"][0].args[0])
-            src = [x for x in walk_body_shallow(cbc.body) if isinstance(x, ast.Assign) and unparse(x.targets[0]) == av]
-            ok = len(src) == 1 and "%s.close()" % unparse(loops[0].stmt.target) in norm(src[0].value)
+            av = [c for c in inl[0].calls() if call_name(c) == "append"][0].args[0]
+            og = deferred_origins(cc, inl[0].id, av) or []
+            ok = len(og) == 1 and norm(og[0]) == "%s.close()" % unparse(loops[0].stmt.target)
         ok = ok and cc.dominates([loops[0].id], dl[0].id)
     r.check(ok, "%s#aggregate-of-every-close" % cbc.qname, "the aggregate does not contain the close Deferred of every broker client",
             where(cbc, cbc.node), "close() reports completion while a broker connection is still closing")
